@@ -92,6 +92,54 @@ theorem save_completes (c : Codec D) (ub : Bool) (fs : Fs) (d : D) :
       ((ub = false ∨ fs .data = none) → fs' .backup = fs .backup) :=
   save_result ub fs d
 
+/-! ### Concurrent batches: the event-loop atomicity assumption, made explicit
+
+All theorems above are about serial histories: an `Ev.op f` mutates the in-memory store and saves it in ONE step. The hub
+is an asyncio program in which several coroutines use the one driver; the theorems apply to it under the assumption
+
+  **A (event-loop atomicity)**: a modifying driver operation contains no suspension point (`await`) between its first
+  mutation of `self._data` and the end of its `_save`,
+
+because then the event loop can only run the operations of a concurrent batch one whole operation at a time, i.e. the
+execution is `σ.map Ev.op` for some order `σ` of (some of) the batch. A is a fact about the Python code, not about the
+model; it is tied to the code by the harness's concurrent stream (a multi-record update/remove on a 120–300 record
+collection gathered with 1–2 other operations, crash points across the whole execution, the restarted store must be
+a whole-operation state that contains every acknowledged operation). -/
+
+/-- **Under A, any interleaving of a batch with a crash yields a whole-operation state**: after any history, let the
+event loop have completed the operations `σ` of the batch `ops` (in that order) and die at any crash point inside the
+next one, `g`. The restarted store is `σ` applied completely, or `σ` then `g` applied completely — every acknowledged
+operation is in it, and it is a whole-operation state of the batch. -/
+theorem interleaving_whole_op_state {c : Codec D} (hc : c.Lawful) (ub : Bool) (h : List (Ev D))
+    (ops σ rest : List (D → D)) (g : D → D) (hp : (σ ++ g :: rest).Perm ops) (k j : Nat) :
+    ∃ s s', life c ⟨true, ub⟩ h = .ok s ∧
+      life c ⟨true, ub⟩ (h ++ (σ.map Ev.op ++ [.crashOp g k j])) = .ok s' ∧
+      (s'.mem = applyAll σ s.mem ∨ s'.mem = applyAll (σ ++ [g]) s.mem) ∧
+      WholeOpState ops s.mem s'.mem := by
+  obtain ⟨s, s', h1, h2, h3⟩ := ops_then_crash hc ub h σ g k j
+  refine ⟨s, s', h1, h2, h3, ?_⟩
+  rcases h3 with e | e
+  · exact ⟨σ, g :: rest, hp, e⟩
+  · exact ⟨σ ++ [g], rest, by simpa using hp, e⟩
+
+/-- **Without A the conclusion fails** (this is what a suspension point inside an operation does): operation
+`f2 ∘ f1` is suspended after `f1`; the concurrent operation `g` then mutates and saves — its save persists the
+half-applied `f1` — and the process dies anywhere before `f2 ∘ f1`'s own commit. Every single save is atomic, yet the
+restarted store is not a whole-operation state of the batch `[f2 ∘ f1, g]`. -/
+theorem nonatomic_operation_breaks_whole_op_state :
+    memOf (life docCodec ⟨true, true⟩ [.op (Witness.g ∘ Witness.f1), .crashOp Witness.f2 2 1]) = .ok ⟨101, 0⟩ ∧
+    ¬ WholeOpState [Witness.f2 ∘ Witness.f1, Witness.g] docCodec.empty (⟨101, 0⟩ : Doc) :=
+  ⟨by rfl, half_applied_not_whole⟩
+
+/-- non-vacuity of `interleaving_whole_op_state`: a batch of three, two completed, crash in the third before and
+after its commit point -/
+example :
+    memOf (life docCodec ⟨true, true⟩ ([Ev.op Witness.g, Ev.op Witness.f1] ++ [.crashOp Witness.f2 3 0])) = .ok ⟨101, 0⟩ ∧
+    memOf (life docCodec ⟨true, true⟩ ([Ev.op Witness.g, Ev.op Witness.f1] ++ [.crashOp Witness.f2 5 0])) = .ok ⟨111, 0⟩ ∧
+    ([Witness.g, Witness.f1] ++ Witness.f2 :: []).Perm [Witness.f1, Witness.f2, Witness.g] := by
+  refine ⟨by rfl, by rfl, ?_⟩
+  exact (List.Perm.swap _ _ _).trans ((List.Perm.cons _ (List.Perm.swap _ _ _)))
+
 /-! ### The code as found at the pinned commit (`repaired = false`) violates the property -/
 
 /-- Witness 1 (use_backup on): `d1` acknowledged; crash of the next operation right after `os.rename(file, backup)`
